@@ -18,7 +18,7 @@ TRUSTED = ['NumPy binary64 arithmetic in the distance test is compared with exac
 RULE = ('synthetic structures of 2-5 chains with 1-12 atoms each (0.125 A lattice: every distance decision is '
         'float-exact; 0.001 A grid: margin rule), planted pairs at exactly the cutoff, chains without contact, '
         'hydrogens, residues without backbone atoms, interleaved chains, segID chain names; for each structure '
-        'allchains x all ordered chain pairs x only_backbone x excludeH x return_contact_pairs. Non-trivial: at '
+        'allchains x all ordered chain pairs x only_backbone x excludeH x return_contact_pairs; a fifth of the structures again with the flags as np.bool_ / 0-1 integers and the cutoff as int / NumPy scalar; cutoff 0 on coincident atoms. Non-trivial: at '
         'least one of exact-cutoff-pair, hydrogen-filter-active, no-contact-chain, >=3-chains-allchains, '
         'backbone-filter-active.')
 MANDATORY = ['exact-cutoff-pair', 'hydrogen-filter-active', 'no-contact-chain', '>=3-chains-allchains',
@@ -50,10 +50,24 @@ class Struct:
         self.wire = wire_table(self.table)
         self.chains = chains_of(self.table)
 
-def impl_atoms(st, cutoff, allch, c1, c2, obb, exh, pairs, extend=False):
+def carry(v, car):
+    """the same value in another carrier: flags as NumPy booleans / 0-1 integers, the cutoff as int / NumPy scalar"""
+    import numpy as np
+    if not car: return v
+    if car == 'npbool': return np.bool_(v)
+    if car == 'int01': return int(v)
+    if car == 'np64': return np.float64(v)
+    if car == 'np32': return np.float32(v)          # only used for cutoffs exactly representable in binary32
+    if car == 'pyint': return int(v)
+    if car == 'npint': return np.int64(int(v))
+    raise ValueError(car)
+
+def impl_atoms(st, cutoff, allch, c1, c2, obb, exh, pairs, extend=False, car=None):
+    car = car or {}
+    fc, cc = car.get('flags'), car.get('cutoff')
     return run_impl(lambda: (canon_pairs if pairs else canon_atoms)(st.db.get_contact_atoms(
-        cutoff=cutoff, allchains=allch, chain1=c1, chain2=c2, extend_to_residue=extend,
-        only_backbone_atoms=obb, excludeH=exh, return_contact_pairs=pairs)))
+        cutoff=carry(cutoff, cc), allchains=carry(allch, fc), chain1=c1, chain2=c2, extend_to_residue=carry(extend, fc),
+        only_backbone_atoms=carry(obb, fc), excludeH=carry(exh, fc), return_contact_pairs=carry(pairs, fc))))
 
 def make_case(lines, cutoff, allch, c1, c2, obb, exh, pairs):
     return {'fn': 'atoms', 'lines': lines, 'cutoff': cutoff, 'allchains': allch, 'chain1': c1, 'chain2': c2,
@@ -66,6 +80,7 @@ def evaluate(ctx, rep, pdb2sql, groups, record=True):
     for grp in groups:
         lines, cutoff, cfgs, base = grp[:4]
         move = grp[4] if len(grp) > 4 else None
+        car = grp[5] if len(grp) > 5 else None
         st = Struct(pdb2sql, lines)
         if move and move[0] in st.chains and len(st.chains) >= 2:
             # repeated use of ONE object: a first call, then the structure is modified through the public API
@@ -92,7 +107,7 @@ def evaluate(ctx, rep, pdb2sql, groups, record=True):
             for obb in (False, True):
                 for exh in (False, True):
                     for pairs in (False, True):
-                        impl = impl_atoms(st, cutoff, allch, c1, c2, obb, exh, pairs)
+                        impl = impl_atoms(st, cutoff, allch, c1, c2, obb, exh, pairs, car=car)
                         k = len(reqs)
                         reqs.append(['contact.atoms', st.wire, fq, allch, c1, c2, False, obb, exh, pairs])
                         ks = None
@@ -108,6 +123,9 @@ def evaluate(ctx, rep, pdb2sql, groups, record=True):
                             feats.append('no-contact-chain')
                         if not dom: feats.append('outside-domain(tie-only)')
                         cs_ = make_case(lines, cutoff, allch, c1, c2, obb, exh, pairs)
+                        if car:
+                            cs_['carriers'] = dict(car); feats += ['carrier-%s-%s' % kv for kv in sorted(car.items())]
+                        if cutoff == 0: feats.append('cutoff-zero')
                         if move:
                             cs_['prime_then_move'] = list(move); feats.append('object-reused-after-modification')
                         plan.append((cs_, impl, k, ks, feats, st))
@@ -168,6 +186,12 @@ def forced_structures(rng):
          A('CA', 'TRP', 'D', 7, 0, 0, 150000)]
     for c in (3.0, 5.0):
         out.append((s, c, ['forced']))
+    # cutoff 0: exactly the coincident atoms of different chains are in contact (two such pairs here)
+    z = [A('CA', 'ALA', 'A', 1, 0, 0, 0), A('CB', 'ALA', 'A', 1, 1500, 0, 0), A('N', 'GLY', 'B', 1, 0, 0, 0),
+         A('H', 'GLY', 'B', 1, 1500, 0, 0), A('O', 'GLY', 'B', 2, 250, 0, 0), A('CA', 'SER', 'C', 3, 250, 0, 0),
+         A('CA', 'TRP', 'D', 7, 0, 0, 9000)]
+    for c in (0, 0.0):
+        out.append((z, c, ['forced', 'cutoff-zero']))
     return out
 
 def explore(ctx, tier, rng, search=False):
@@ -210,6 +234,13 @@ def explore(ctx, tier, rng, search=False):
         base = []
         if any(len(c) > 1 for c in chains): base.append('segid-chain')
         groups.append((to_lines(atoms), cutoff, configs_for(chains, rng, full=(len(chains) <= 3 or big)), base))
+        if k % 5 == 1:
+            # the same questions with the arguments in other carriers (np.bool_ / 0-1 flags, int / NumPy-scalar cutoff)
+            car = {'flags': rng.choice(['npbool', 'int01'])}
+            if float(cutoff) == int(cutoff): car['cutoff'] = rng.choice(['pyint', 'npint', 'np64', 'np32'])
+            elif cutoff in EXACT: car['cutoff'] = rng.choice(['np64', 'np32'])
+            elif rng.random() < 0.5: car['cutoff'] = 'np64'
+            groups.append((to_lines(atoms), cutoff, configs_for(chains, rng, full=False)[:3], base, None, car))
         if k % 6 == 0 and len(chains) >= 2 and all(len(c) == 1 for c in chains):
             mv = (rng.choice(chains), rng.choice([125, -250, 3000, 1000, -6125]))
             groups.append((to_lines(atoms), cutoff, configs_for(chains, rng, full=False)[:3], base, mv))
@@ -237,8 +268,8 @@ def replay(ctx, case):
     dom = (len(st.chains) >= 2) if case['allchains'] else (case['chain1'] != case['chain2'] and case['chain1'] in st.chains and case['chain2'] in st.chains)
     cfg = cfg[:3] + (dom,)
     grp = (case['lines'], case['cutoff'], [cfg], [])
-    if case.get('prime_then_move'):
-        grp = grp + (tuple(case['prime_then_move']),)
+    if case.get('prime_then_move') or case.get('carriers'):
+        grp = grp + (tuple(case['prime_then_move']) if case.get('prime_then_move') else None, case.get('carriers'))
     res = evaluate(ctx, rep, pdb2sql, [grp], record=False)
     for c, vok, tok, text in res:
         if (c['only_bb'], c['exclH'], c['pairs']) == (case['only_bb'], case['exclH'], case['pairs']):
